@@ -329,6 +329,45 @@ def Prog.size : Prog → Nat
   | .catch b => b.size + 2
   | _ => 1
 
+/-! ### nested option dicts (`sub()/subn()`: `copy_options`, `repl_options`; match.py `subn`) -/
+
+/-- `x_options = options if x_options is None else check_options(x_options)`: `None` inherits the call's top-level
+    options, a dict that was passed - the EMPTY one included - is used as it is -/
+def phaseOptions (top : Kvs) (given : Option Kvs) : Kvs :=
+  match given with
+  | none => top
+  | some d => d
+
+/-- what a phase of the call sees for option `n` in a thread whose dict is `m` -/
+def phaseView (c : Cfg) (m : OptMap) (top : Kvs) (given : Option Kvs) (n : Name) : Val :=
+  getOption c m n (phaseOptions top given)
+
+/-! ### memoised option-dependent reads (`FST.own_lines()`: per-node cache of the dedent parameters, fst.py) -/
+
+/-- one read: the raw argument (`none` = "use the thread default") and the thread default at the time of the call -/
+structure Req where
+  arg  : Option Val
+  dflt : Val
+deriving DecidableEq, Repr
+
+/-- the effective option value of a read -/
+def Req.eff (r : Req) : Val := r.arg.getD r.dflt
+
+/-- cache key = effective value (what `own_lines` does: resolve the default FIRST, then 'ownlS' / 'ownlT' / 'ownlF') -/
+def keyEff (r : Req) : Nat := r.eff
+/-- cache key = raw argument (an extra key for "argument not given") -/
+def keyRaw (r : Req) : Nat := match r.arg with | none => 0 | some v => v + 1
+
+/-- one memoised read of an unmodified node: hit = cached answer, miss = compute from the effective value and store -/
+def memoStep {α : Type} (key : Req → Nat) (f : Val → α) (cache : List (Nat × α)) (r : Req) : List (Nat × α) × α :=
+  match alook (key r) cache with
+  | some a => (cache, a)
+  | none => (aput (key r) (f r.eff) cache, f r.eff)
+
+def memoRun {α : Type} (key : Req → Nat) (f : Val → α) : List Req → List (Nat × α) → List α
+  | [], _ => []
+  | r :: rs, cache => (memoStep key f cache r).2 :: memoRun key f rs (memoStep key f cache r).1
+
 /-! ### the extracted instance -/
 
 def realCfg : Cfg :=
